@@ -5553,10 +5553,10 @@ evhttp_uri_join(const struct evhttp_uri *uri, char *buf, size_t limit)
 		}
 		if (uri->port >= 0)
 			evbuffer_add_printf(tmp,":%d", uri->port);
-
-		if (uri->path && uri->path[0] != '/' && uri->path[0] != '\0')
-			goto err;
 	}
+
+	if (has_authority && uri->path && uri->path[0] != '/' && uri->path[0] != '\0')
+		goto err;
 
 	if (uri->path) {
 		if (!has_authority) {
